@@ -719,8 +719,7 @@ def _leaf_dtype(leaves):
     return r
 
 
-@_dispatch('function')
-def array(obj, dtype=None, copy=True, **kw):
+def array(obj, dtype=None, copy=True, **kw):      # (np.array / np.asarray are not dispatched through __array_function__; they honour __array__)
     if dtype is not None:
         dtype = as_dtype(dtype)
     if _isinstance(obj, ndarray):
@@ -740,7 +739,6 @@ def array(obj, dtype=None, copy=True, **kw):
     return ndarray._new(cells, shape, dt)
 
 
-@_dispatch('function')
 def asarray(obj, dtype=None, **kw):
     if _isinstance(obj, ndarray) and not obj._scalar and (dtype is None or as_dtype(dtype) == obj.dtype):
         return obj
